@@ -1,6 +1,6 @@
 """C23 — Expression evaluation obeys Cypher laws: the `one overflow rule everywhere` clause (ops + casts)."""
 from ..facts import op_local
-from ..mirutil import upper_bound_guards, backward_calls, switch_on, value_root, peel_refs
+from ..mirutil import narrowing_cast_guarded
 
 EXPLANATION = (
     "Decides only the integer-overflow uniformity clause: in the numeric core of the evaluator (evaluator_numeric, evaluator_arithmetic, "
@@ -73,32 +73,7 @@ def run(ctx):
                     k += 1
                 if rv[0] == "cast" and rv[1] == "IntToInt" and rv[3] == "i128" and rv[4] == "i64":
                     n_cast += 1
-                    l = op_local(rv[2])
-                    ok = False
-                    if l is not None:
-                        ok = any(b.dominates(g[0], bi) for g in upper_bound_guards(b, l))
-                        if not ok:
-                            root_l = value_root(b, l)
-                            # RangeInclusive::contains(&range, &value) guarding the cast
-                            for sb in range(len(b.blocks)):
-                                sw = switch_on(b, sb)
-                                if not sw or not b.dominates(sb, bi):
-                                    continue
-                                sd = b.single_def(sw[0])
-                                if sd and sd[2] == "call":
-                                    cc = b.call_at(sd[0])
-                                    if cc and cc.name.endswith("::contains") and len(cc.args) > 1:
-                                        al = op_local(cc.args[1])
-                                        al = peel_refs(b, al)
-                                        if al is not None and value_root(b, al) == root_l:
-                                            t_false = [tb for v, tb in sw[2] if v == 0]
-                                            if t_false and bi not in b.reachable([t_false[0]]):
-                                                ok = True
-                        if not ok:
-                            # idiom: remainder of two widened i64 values always fits in i64
-                            sdr = b.single_def(value_root(b, l))
-                            if sdr and sdr[2] == "assign" and sdr[3][2][0] == "bin" and sdr[3][2][1] == "Rem" and sdr[3][2][4] == "i128":
-                                ok = True
+                    ok = narrowing_cast_guarded(b, bi, op_local(rv[2]))
                     ctx.instance("C23.2", "%s: i128->i64 cast range-checked=%s" % (b.id, ok))
                     ctx.oblige(ok, "C23.2", "%s:cast(i128->i64)" % b.id,
                                "an i128 intermediate is narrowed to i64 without a dominating range test: the result wraps silently", "%s:%d" % (b.file, st[3]))
